@@ -1041,3 +1041,48 @@ func ruleServeServes(c *Ctx) {
 		c.R.Undecided("R-ORDER/O6", "", "instance-floor", fmt.Sprintf("only %d ServerProtocol.Serve implementations found, 2 expected", n))
 	}
 }
+
+// ---------- R-SIB/switch: the yamux server muxer wraps the listener only for gRPC ----------
+
+// ruleMuxOnlyGRPC — in Serve the listener is wrapped in the gRPC broker
+// multiplexer only on the gRPC arm of the protocol switch. The net/rpc server
+// speaks yamux itself on the raw connection; behind the multiplexer a net/rpc
+// plugin would be unreachable for a host that allows both protocols and
+// requests multiplexing.
+func ruleMuxOnlyGRPC(c *Ctx) {
+	p := c.P
+	f := p.Fn("Serve")
+	if f == nil {
+		c.R.Undecided("R-SIB/switch", "Serve", "anchor", "function not found")
+		return
+	}
+	info := f.Pkg.TypesInfo
+	g := p.Graph(f)
+	n := 0
+	for _, call := range f.Calls() {
+		if p.CalleeName(f, call) != modPath+"/internal/grpcmux.NewGRPCServerMuxer" {
+			continue
+		}
+		n++
+		node := g.NodeOf(call)
+		ok := node != nil && g.OnlyViaEdge(node, func(e *Edge) bool {
+			if e.Tag == nil || e.Branch <= 0 || e.Cond == nil {
+				// if protoType == ProtocolGRPC { ... }
+				at, isAt := edgeAtom(info, e)
+				if isAt && at.Kind == "cmp" && at.Op == token.EQL {
+					return objFullName(objOfExpr(info, at.Y)) == modPath+".ProtocolGRPC" || objFullName(objOfExpr(info, at.X)) == modPath+".ProtocolGRPC"
+				}
+				return false
+			}
+			return objFullName(objOfExpr(info, e.Cond)) == modPath+".ProtocolGRPC"
+		})
+		if ok {
+			c.R.Hold("R-SIB/switch", p.Pos(call), f.Name, "server muxer only on the gRPC arm", "NewGRPCServerMuxer is reachable only through the ProtocolGRPC case", true)
+		} else {
+			c.R.Violate("R-SIB/switch", p.Pos(call), f.Name, "server muxer only on the gRPC arm", "the listener can be wrapped in the gRPC multiplexer for a net/rpc plugin: a host that allows both protocols and requests multiplexing then fails on first use with a transport error instead of working", nil)
+		}
+	}
+	if n == 0 {
+		c.R.Undecided("R-SIB/switch", f.Name, "server muxer", "no call of grpcmux.NewGRPCServerMuxer found in Serve")
+	}
+}
